@@ -66,4 +66,4 @@ def steer_f1(v, prop):
             v.traces += 1
 
 def replay(path, seed):
-    print(open(path).read()[-3000:]); return 1
+    return replay_lane(PROP, path)
